@@ -3,6 +3,7 @@
 #ifndef VERIF_VTRACE_H
 #define VERIF_VTRACE_H
 #include <cstdio>
+#include <cstring>
 #include <cstdlib>
 #include <cstdint>
 #include <cmath>
@@ -64,6 +65,13 @@ struct J {
 // lattice projection: X = llround(x*S); exact iff |x*S - X| < 1/4096
 inline long long lat(double x, double S) { return llround(x * S); }
 inline bool onLat(double x, double S) { double y = x * S; return std::isfinite(y) && std::fabs(y - (double)llround(y)) < 1.0 / 4096; }
+
+// a double as three limbs (22 + 21 + 21 bits of its IEEE-754 representation): equality of limb triples is bit equality
+inline void limbs(J &j, double v)
+{
+    uint64_t u; memcpy(&u, &v, 8);
+    j.arr().i((long long)(u >> 42)).i((long long)((u >> 21) & 0x1FFFFF)).i((long long)(u & 0x1FFFFF)).end();
+}
 
 struct Out {
     FILE *f;
